@@ -191,6 +191,23 @@ fn payment_cases(ctx: &mut Ctx, idx: usize, w: &World, w2: &World) {
     }
     attempts.push(("right-pair-wrong-bf", wire::de(&rpb).unwrap(), perturb(&mut ctx.prng, &right_bf_s)));
     attempts.push(("right-pair-zero-bf", wire::de(&rpb).unwrap(), Scalar::zero()));
+    // candidates *solved* with the discrete logs of the commitment parameters (a party who knows a relation between
+    // h and g can do this): an unrelated valid pair, or the right one, with the blinding factor chosen so that the
+    // recomputed commitment is k*C for k = -1 (same x-coordinate), 2 and 0 (the identity) - none of them opens C
+    if w.rev_h != Scalar::zero() {
+        let hinv = w.rev_h.invert().unwrap();
+        let new_lock = s_at(&lb, 64).unwrap();
+        for (what, k) in [("unrelated-pair-solved-to-minus-C", -Scalar::one()), ("unrelated-pair-solved-to-2C", Scalar::from(2u64)), ("unrelated-pair-solved-to-identity", Scalar::zero())] {
+            if k * run.d.rl.c == run.d.rl.c { continue; }
+            attempts.push((what, wire::de(&lb[64..129]).unwrap(), (k * run.d.rl.c - w.rev_g * new_lock) * hinv));
+        }
+        if run.d.rl.c != Scalar::zero() {
+            attempts.push(("right-pair-solved-to-minus-C", wire::de(&rpb).unwrap(), (-run.d.rl.c - w.rev_g * right_lock) * hinv));
+            attempts.push(("right-pair-negated-bf", wire::de(&rpb).unwrap(), -right_bf_s));
+        }
+    }
+    // random order, random-length prefix
+    for i in (1..attempts.len()).rev() { let j = ctx.prng.gen_range(0..=i); attempts.swap(i, j); }
     let n_bad = ctx.prng.gen_range(0..=attempts.len());
     for (what, pair, bf) in attempts.into_iter().take(n_bad) {
         let pb = wire::ser(&pair);
